@@ -21,10 +21,11 @@ BASE = dict(CmdSz=2, W=3)
 MC = "---- MODULE MC_%s ----\nEXTENDS %s\nMCOLog == <<2>>\n====\n"
 
 
-def fcfg(ml, mf, a, b, c, refollow=0, stale="percmd", cuts=True,
+def fcfg(ml, mf, a, b, c, refollow=0, stale="percmd", cuts=True, clears=True,
          extra="VIEW View\nINVARIANT CopyWhenCaughtUp CopyWhenQuiescent NoEarlyCaughtUp LogIsLeaderPrefix\n"):
     return ("SPECIFICATION Spec\n" + cfg_consts(MaxLeader=ml, MaxFaults=mf, SmallNoCheck=a, ZeroNoReset=b, IntactShortcut=c,
-                                                MaxRefollow=refollow, StaleCheck=stale, ShrinkCutsCopying=cuts, OLog="<- MCOLog", **BASE) + extra)
+                                                MaxRefollow=refollow, StaleCheck=stale, ShrinkCutsCopying=cuts, ClearsAtStep=clears,
+                                                OLog="<- MCOLog", **BASE) + extra)
 
 
 def design(ctx):
@@ -45,6 +46,10 @@ def design(ctx):
                  timeout=900, expect_violation=True)
     if r3["violated"] is None:
         raise common.Infra("Follow deviation StaleCheck=atread is not detected (vacuous)")
+    r5 = ctx.tlc("fol_keepsflag", ["Follow.tla"], MC % ("fol_keepsflag", "Follow"), fcfg(3, 1, False, False, False, clears=False),
+                 timeout=900, expect_violation=True)
+    if r5["violated"] is None:
+        raise common.Infra("Follow deviation ClearsAtStep=FALSE is not detected (vacuous)")
     r4 = ctx.tlc("fol_midcopy", ["Follow.tla"], MC % ("fol_midcopy", "Follow"), fcfg(4, 1, False, False, False, cuts=False),
                  timeout=900, expect_violation=True)
     if r4["violated"] is None:
@@ -93,10 +98,10 @@ def run_scenarios(ctx, scs, label):
     st = js["stats"]
     ctx.log("%s: %d scenarios on real leader/follower pairs: %d leader batches, %d drops, %d follower restarts, %d leader shrinks, "
             "(%d while the follower was parked in its backlog copy), %d re-follows to a second leader, %d writes on the former leader, "
-            "%d quiescent comparisons, %d mismatches" % (
+            "%d quiescent comparisons, %d SERVER samples taken while the follower recovered from a fault (caught_up must come with the leader's counts), %d mismatches" % (
             label, st.get("scenarios", 0), st.get("lwrites", 0), st.get("drops", 0), st.get("frestarts", 0), st.get("lshrinks", 0),
             st.get("lshrinks_midcopy", 0),
-            st.get("refollows", 0), st.get("owrites", 0), st.get("syncs", 0), len(js.get("mismatches") or [])))
+            st.get("refollows", 0), st.get("owrites", 0), st.get("syncs", 0), st.get("caughtup_samples", 0), len(js.get("mismatches") or [])))
     groups = {}
     for m in js.get("mismatches") or []:
         s = scs[m["scenario"]]
@@ -143,10 +148,12 @@ def run(ctx):
     st = run_scenarios(ctx, scs_run, "follow")
     if st.get("syncs", 0) == 0:
         raise common.Infra("nothing compared (vacuous)")
+    if st.get("caughtup_samples", 0) == 0:
+        raise common.Infra("the follower was never sampled while it recovered from a fault (vacuous)")
     common.write_evidence(ctx, "model_checking", {
         "states": d["distinct"] + r["distinct"], "transitions": d["generated"] + r["generated"],
         "traces_validated_against_impl": st.get("scenarios", 0), "scenarios_in_graph": len(scs),
-        "quiescent_comparisons": st.get("syncs", 0), "faults": {k: st.get(k, 0) for k in ("drops", "frestarts", "lshrinks", "lshrinks_midcopy", "refollows", "owrites")},
+        "quiescent_comparisons": st.get("syncs", 0), "caught_up_samples_during_recovery": st.get("caughtup_samples", 0), "faults": {k: st.get(k, 0) for k in ("drops", "frestarts", "lshrinks", "lshrinks_midcopy", "refollows", "owrites")},
         "samples": scs_run[:3], "exhaustive": not ctx.quick,
         "explanation": "Design: TLC explores all leader histories (<=4/5 commands incl. a non-idempotent one), initial follower logs "
                        "(prefix + foreign suffix) and fault sequences. Conformance: scenarios from the reachable graph run on real "
